@@ -101,6 +101,9 @@ pub async fn run_suite(suite: &str, seed: u64, cases: usize) -> (String, String)
             "delta" => gen_delta(&mut sim, &mut crng, &mut stats, &name).await,
             "fill" => gen_fill(&mut sim, &mut crng, &mut stats, &name).await,
             "wire" => gen_wire(&mut sim, &mut crng, &mut stats, &name).await,
+            "fd" => gen_fd(&mut sim, &mut crng, &mut stats, &name).await,
+            "listen" => gen_listen(&mut sim, &mut crng, &mut stats, &name).await,
+            "select" => gen_select(&mut sim, &mut crng, &mut stats, &name).await,
             "apply" => gen_apply(&mut sim, &mut crng, &mut stats, &name).await,
             "catchup" => gen_catchup(&mut sim, &mut crng, &mut stats, &name).await,
             other => panic!("unknown suite {other}"),
@@ -968,6 +971,280 @@ pub async fn gen_wire(sim: &mut Sim, rng: &mut Prng, stats: &mut Stats, name: &s
             spec.kv_grace_ns = 1_000;
             sim.join(spec);
             sim.deliver(0, &bytes);
+        }
+    }
+}
+
+// ------------------------------------------------------------------------------------------
+// S-fd: heartbeat arrival histories (fresh, equal, lower, relayed), evaluations, removal and
+// re-creation (C10, C11, C12, C13). All durations are multiples of 1,953,125 ns = 2^-9 s so
+// that the implementation's f64 arithmetic on seconds is exact.
+const UNIT: u64 = 1_953_125;
+
+pub async fn gen_fd(sim: &mut Sim, rng: &mut Prng, stats: &mut Stats, name: &str) {
+    sim.start_case(name);
+    let mut spec = NodeSpec::simple(mk_id("r", 0, 6000));
+    let (pn, pd) = *rng.pick(&[(1i64, 2i64), (1, 1), (2, 1), (8, 1), (16, 1), (3, 2), (5, 1)]);
+    spec.phi_num = pn;
+    spec.phi_den = pd;
+    spec.window = *rng.pick(&[1usize, 2, 3, 10, 1000]);
+    spec.initial_interval_ns = UNIT * *rng.pick(&[64u64, 256, 512, 2560]);
+    spec.max_interval_ns = UNIT * *rng.pick(&[256u64, 512, 5120]);
+    spec.dead_grace_ns = UNIT * 2048 * *rng.pick(&[1u64, 4, 64]);
+    spec.kv_grace_ns = 1_000_000;
+    if rng.chance(1, 3) {
+        spec.pred = Pred::MaxEven;
+    }
+    let dead_grace = spec.dead_grace_ns;
+    let max_iv = spec.max_interval_ns;
+    sim.join(spec);
+    let members = [mk_id("x", 0, 6001), mk_id("y", 3, 6002)];
+    let wids: Vec<WId> = members.iter().map(wid_of).collect();
+    let mut hb = [0u64, 0u64];
+    let steady = rng.chance(1, 3);
+    let steady_dt = UNIT * *rng.pick(&[16u64, 64, 256]);
+    let nops = rng.range(8, 60);
+    for _ in 0..nops {
+        if sim.dead_case {
+            break;
+        }
+        match rng.below(100) {
+            0..=44 => {
+                // a digest carrying heartbeats for x and/or y
+                let mut entries = Vec::new();
+                for (i, w) in wids.iter().enumerate() {
+                    if rng.chance(2, 3) {
+                        let v = match rng.below(10) {
+                            0 => hb[i],                       // equal (duplicate / relay)
+                            1 => hb[i].saturating_sub(1 + rng.below(3)), // lower (stale relay)
+                            2 => hb[i] + 5,
+                            _ => hb[i] + 1,
+                        };
+                        if v > hb[i] {
+                            hb[i] = v;
+                            stats.bump("hb_fresh_or_first");
+                        } else {
+                            stats.bump("hb_stale");
+                        }
+                        entries.push((w.clone(), v, 0, 0));
+                    }
+                }
+                sim.deliver(0, &syn_bytes("c", &entries));
+            }
+            45..=74 => {
+                let dt = if steady {
+                    steady_dt
+                } else {
+                    UNIT * *rng.pick(&[1u64, 16, 64, 256, 512, 1024, 5120, 51200])
+                };
+                sim.tick(dt).await;
+            }
+            75..=79 => {
+                // long silences around the removal boundaries
+                let dt = *rng.pick(&[dead_grace / 2, dead_grace / 2 + UNIT, dead_grace, dead_grace + UNIT, max_iv, max_iv + UNIT]);
+                sim.tick(dt).await;
+                stats.bump("tick_long");
+            }
+            80..=96 => {
+                sim.eval(0);
+                stats.bump("op_eval");
+            }
+            _ => {
+                sim.syn(0);
+            }
+        }
+    }
+    sim.eval(0);
+}
+
+// ------------------------------------------------------------------------------------------
+// S-listen: subscriptions (C15). Alphabet {a, b, é (2 bytes), 𝄞 (4 bytes)}, strings of length <= 3.
+fn alpha_string(rng: &mut Prng, max_len: u64) -> String {
+    let alpha = ['a', 'b', '\u{e9}', '\u{1d11e}'];
+    let n = rng.below(max_len + 1);
+    (0..n).map(|_| *rng.pick(&alpha)).collect()
+}
+
+pub async fn gen_listen(sim: &mut Sim, rng: &mut Prng, stats: &mut Stats, name: &str) {
+    sim.start_case(name);
+    sim.no_events();
+    for i in 0..2 {
+        let mut spec = NodeSpec::simple(mk_id(["a", "b"][i], 0, 7000 + i as u16));
+        spec.kv_grace_ns = 1_000;
+        sim.join(spec);
+    }
+    let mut next_lid = 1u64;
+    let nops = rng.range(6, 40);
+    for _ in 0..nops {
+        if sim.dead_case {
+            break;
+        }
+        let n = rng.below(2) as usize;
+        match rng.below(100) {
+            0..=24 => {
+                if sim.nodes[n].subs.len() < 8 {
+                    let p = alpha_string(rng, 3);
+                    let forever = rng.chance(1, 4);
+                    sim.subscribe(n, next_lid, &p, forever);
+                    next_lid += 1;
+                    stats.bump(if p.is_empty() { "sub_empty_prefix" } else { "sub_prefix" });
+                }
+            }
+            25..=34 => {
+                if !sim.nodes[n].subs.is_empty() {
+                    let i = rng.below(sim.nodes[n].subs.len() as u64) as usize;
+                    let lid = sim.nodes[n].subs[i].0;
+                    sim.drop_listener(n, lid);
+                    stats.bump("drop_handle");
+                }
+            }
+            35..=59 => {
+                let k = alpha_string(rng, 3);
+                let v = alpha_string(rng, 2);
+                sim.set(n, &k, &v);
+                sim.calls(n);
+                stats.bump(if k.is_empty() { "set_empty_key" } else { "set_key" });
+            }
+            60..=66 => {
+                let k = alpha_string(rng, 3);
+                sim.set_with_ttl(n, &k, "t");
+                sim.calls(n);
+            }
+            67..=74 => {
+                let k = alpha_string(rng, 2);
+                if rng.chance(1, 2) {
+                    sim.delete(n, &k);
+                } else {
+                    sim.delete_after_ttl(n, &k);
+                }
+                sim.calls(n);
+                stats.bump("delete");
+            }
+            75..=94 => {
+                // replicated writes: handshake n -> m, listeners of both sides may fire
+                let m = 1 - n;
+                if let Some(syn) = sim.syn(n) {
+                    if let Some(synack) = sim.deliver(m, &syn) {
+                        if let Some(ack) = sim.deliver(n, &synack) {
+                            sim.deliver(m, &ack);
+                        }
+                    }
+                }
+                sim.calls(0);
+                sim.calls(1);
+                stats.bump("handshake");
+            }
+            _ => {
+                sim.tick(1_000).await;
+                sim.gc(n);
+            }
+        }
+    }
+}
+
+// ------------------------------------------------------------------------------------------
+// S-select: peer selection with a scripted random generator (C17).
+struct ScriptRng {
+    u64_script: Vec<u64>,
+    pos: usize,
+    inner: Prng,
+    pub n_u64: usize,
+}
+
+impl rand::TryRng for ScriptRng {
+    type Error = std::convert::Infallible;
+    fn try_next_u32(&mut self) -> Result<u32, Self::Error> {
+        Ok(self.inner.next_u64() as u32)
+    }
+    fn try_next_u64(&mut self) -> Result<u64, Self::Error> {
+        let v = if self.pos < self.u64_script.len() { self.u64_script[self.pos] } else { self.inner.next_u64() };
+        self.pos += 1;
+        self.n_u64 += 1;
+        Ok(v)
+    }
+    fn try_fill_bytes(&mut self, dest: &mut [u8]) -> Result<(), Self::Error> {
+        for b in dest.iter_mut() {
+            *b = self.inner.next_u64() as u8;
+        }
+        Ok(())
+    }
+}
+
+fn addr_tok(a: &std::net::SocketAddr) -> String {
+    match a.ip() {
+        std::net::IpAddr::V4(ip) => format!("4.{}.{}", u32::from(ip), a.port()),
+        std::net::IpAddr::V6(ip) => format!("6.{}.{}", u128::from(ip), a.port()),
+    }
+}
+
+pub async fn gen_select(sim: &mut Sim, rng: &mut Prng, stats: &mut Stats, name: &str) {
+    use std::collections::HashSet;
+    use std::net::SocketAddr;
+    sim.start_case(name);
+    let universe: Vec<SocketAddr> = (0..8u8).map(|k| SocketAddr::from(([10, 0, 0, k + 1], 1000 + k as u16))).collect();
+    for _ in 0..40 {
+        let subset = |rng: &mut Prng, max: u64| -> Vec<SocketAddr> {
+            let n = rng.below(max + 1);
+            let mut v = Vec::new();
+            for a in &universe {
+                if (v.len() as u64) < n && rng.chance(1, 2) {
+                    v.push(*a);
+                }
+            }
+            v
+        };
+        let live = subset(rng, 6);
+        // peers is a superset of live and dead in the server; exercise arbitrary sets too
+        let dead = subset(rng, 6);
+        let mut peers = subset(rng, 6);
+        if rng.chance(2, 3) {
+            for a in live.iter().chain(dead.iter()) {
+                if !peers.contains(a) {
+                    peers.push(*a);
+                }
+            }
+        }
+        let seeds = subset(rng, 3);
+        let extreme = [0u64, 1 << 11, u64::MAX, 1 << 63, (1 << 63) - 1, u64::MAX - (1 << 11)];
+        let d1 = if rng.chance(1, 2) { *rng.pick(&extreme) } else { rng.next_u64() };
+        let d2 = if rng.chance(1, 2) { *rng.pick(&extreme) } else { rng.next_u64() };
+        let mut srng = ScriptRng { u64_script: vec![d1, d2], pos: 0, inner: rng.fork(), n_u64: 0 };
+        let (nodes, dead_opt, seed_opt) = chitchat::verif::verif_select_nodes_for_gossip(
+            &mut srng,
+            peers.iter().cloned().collect::<HashSet<_>>(),
+            live.iter().cloned().collect::<HashSet<_>>(),
+            dead.iter().cloned().collect::<HashSet<_>>(),
+            seeds.iter().cloned().collect::<HashSet<_>>(),
+        );
+        let list = |tag: &str, v: &[SocketAddr]| -> String {
+            let mut s = format!("{} {}", tag, v.len());
+            for a in v {
+                s.push(' ');
+                s.push_str(&addr_tok(a));
+            }
+            s
+        };
+        let opt = |o: &Option<SocketAddr>| o.map(|a| addr_tok(&a)).unwrap_or("none".to_string());
+        let op = format!(
+            "SELECT {} {} {} {} {} DRAWS 2 {} {} DEADPICK {} SEEDPICK {}",
+            list("P", &peers),
+            list("L", &live),
+            list("D", &dead),
+            list("S", &seeds),
+            list("SAMPLE", &nodes),
+            d1 >> 11,
+            d2 >> 11,
+            opt(&dead_opt),
+            opt(&seed_opt)
+        );
+        let obs = format!("valid 1 dead {} seed {} draws {}", dead_opt.is_some() as u8, seed_opt.is_some() as u8, srng.n_u64);
+        sim.raw_record(&op, &obs);
+        stats.bump("selections");
+        if live.is_empty() && !seeds.is_empty() {
+            stats.bump("select_isolated_with_seed");
+        }
+        if dead.len() > live.len() {
+            stats.bump("select_dead_outnumber_live");
         }
     }
 }
